@@ -231,6 +231,15 @@ def forms_of(rng, g, d, tag):
         out.append(("%s open binary file, format given" % fmt, lambda bare=bare, fmt=fmt: (lambda fh: (fh, fmt, fh.close))(open(bare, "rb"))))
         out.append(("%s open text file with extension" % fmt, lambda path=path: (lambda fh: (fh, None, fh.close))(open(path, "r", encoding="utf-8"))))
         out.append(("%s StringIO, format given" % fmt, lambda text=text, fmt=fmt: (io.StringIO(text), fmt, None)))
+        if fmt == "xml" and len(g) > 0 and text.startswith("<?xml"):
+            bare_root = "\n\n  \n" + text.split("?>", 1)[1].lstrip()
+            out.append(("xml str after blank lines (no XML declaration), format omitted", lambda t=bare_root: (t, None, None)))
+            out.append(("xml BytesIO after blank lines, format omitted", lambda t=bare_root: (io.BytesIO(t.encode("utf-8")), None, None)))
+        if fmt in ("nt", "turtle") and len(g) > 0:
+            out.append(("%s str after blank lines, format given" % fmt, lambda t="\n\n" + text, fmt=fmt: (t, fmt, None)))
+            shared = io.StringIO(text)
+            out.append(("%s StringIO used for the first time" % fmt, lambda sh_=shared, fmt=fmt: (sh_, fmt, None)))
+            out.append(("%s the same StringIO used again" % fmt, lambda sh_=shared, fmt=fmt: (sh_, fmt, None)))
         if detectable:
             out.append(("%s str, format omitted" % fmt, lambda text=text: (text, None, None)))
             out.append(("%s bytes, format omitted" % fmt, lambda text=text: (text.encode("utf-8"), None, None)))
@@ -279,7 +288,8 @@ def main(tier, seed, replay=None):
             stats["nonconforming"] += 0 if base[1] else 1
             for arg, graph in (("data", c["data"]), ("shapes", c["sg"]), ("ontology", ont)):
                 forms = forms_of(rng, graph, d, "%s%d" % (arg, stats["cases"]))
-                for desc, make in (forms if big else rng.sample(forms, min(9, len(forms)))):
+                chosen = forms if big else sorted(rng.sample(range(len(forms)), min(12, len(forms))))
+                for desc, make in (forms if big else [forms[i] for i in chosen]):
                     src, fmt, closer = make()
                     kw = dict(opts)
                     a = {"data": c["data"], "shapes": c["sg"], "ontology": ont}
